@@ -394,6 +394,18 @@ func (s *c17State) do(op string) (out []string) {
 				if len(b) >= 4 {
 					binary.LittleEndian.PutUint32(b[len(b)-4:], uint32(u(2)))
 				}
+			} else if f[1] == "idx" {
+				// index block = after the bloom block: count, then uint32 offsets
+				if uint64(len(b)) >= d.EntriesSize+8 {
+					bits := binary.LittleEndian.Uint32(b[d.EntriesSize:])
+					pos := d.EntriesSize + 8 + uint64((bits+63)/64)*8
+					if uint64(len(b)) >= pos+4 {
+						if cnt := uint64(binary.LittleEndian.Uint32(b[pos:])); cnt > 0 && uint64(len(b)) >= pos+4+4*cnt {
+							j := u(2) % cnt
+							binary.LittleEndian.PutUint32(b[pos+4+4*j:], uint32(d.EntriesSize+1+u(2)))
+						}
+					}
+				}
 			} else {
 				b = b[:max(0, len(b)-int(u(2)))]
 			}
@@ -412,7 +424,11 @@ func (s *c17State) do(op string) (out []string) {
 			func() {
 				defer func() {
 					if r := recover(); r != nil {
-						out = append(out, "loaderr") // loadFooter / bloom.Decode / SearchIndexDecode panic on a short file
+						if strings.Contains(fmt.Sprint(r), "cursor move to") {
+							out = append(out, "panic") // Cursor.Move beyond the entries block
+						} else {
+							out = append(out, "loaderr") // loadFooter / bloom.Decode / SearchIndexDecode panic on a short file
+						}
 					}
 				}()
 				if f[0] == "cget" {
@@ -808,8 +824,13 @@ func c17GenTable(r *lib.Rng, tier string) lib.Case {
 	c.Ops = append(c.Ops, c17TableOps(r, es, 24)...)
 	if r.Chance(1, 3) {
 		// robustness outside the property's statement (M-obs): wrong version, truncated file
-		if r.Bool() {
+		if x := r.Intn(3); x == 0 {
 			c.Ops = append(c.Ops, fmt.Sprintf("corrupt ver %d", r.Intn(5)))
+		} else if x == 1 {
+			c.Ops = append(c.Ops, fmt.Sprintf("corrupt idx %d", r.Intn(9)))
+			for j := 0; j < 6 && len(es) > 0; j++ {
+				c.Ops = append(c.Ops, "cget "+lib.Hex(es[(j*len(es))/6].k))
+			}
 		} else {
 			c.Ops = append(c.Ops, fmt.Sprintf("corrupt trunc %d", lib.Pick(r, []int{1, 3, 4, 5, 8, 11, 12, 13, 20, 100, 4200})))
 		}
@@ -902,6 +923,10 @@ func c17GenWal(r *lib.Rng, tier string) lib.Case {
 			if r.Chance(1, 2) {
 				c.Ops = append(c.Ops, fmt.Sprintf("wread %d", a))
 			}
+		}
+		if r.Chance(1, 6) {
+			// the largest marker: `startAfter + 1` wraps to 0 in the reader
+			c.Ops = append(c.Ops, "wread 18446744073709551615")
 		}
 	}
 	for i := 0; i < steps; i++ {
@@ -1025,6 +1050,9 @@ func c17GenWalHex(r *lib.Rng) lib.Case {
 			b = b[:r.Intn(len(b)+1)]
 		}
 		c.Ops = append(c.Ops, fmt.Sprintf("wreadhex %s %d", lib.Hex(b), r.Intn(int(first)+n+2)))
+		if j == 0 {
+			c.Ops = append(c.Ops, fmt.Sprintf("wreadhex %s 18446744073709551615", lib.Hex(buf)))
+		}
 	}
 	return c
 }
